@@ -286,7 +286,19 @@ def private_helpers(crate, adt_suffix, exclude=()):
     own = [b for b in methods_of(crate, adt_suffix) if b.vis != "pub" and b.key not in ex and not self_recursive(b)]
     # ... and the functions of the crate's private value-carrier types (`Node::left()`, `Halves::new`, `BitPos::mask()`)
     seen = {b.key for b in own}
-    return own + [b for b in private_type_helpers(crate, exclude) if b.key not in seen]
+    own = own + [b for b in private_type_helpers(crate, exclude) if b.key not in seen]
+    # ... and private free functions that take the ADT by reference (`fn make_room(w: &mut Writer, n: usize)`): methods
+    # written outside the impl block
+    seen = {b.key for b in own}
+    adt = need_adt(crate, adt_suffix)
+    nm = str(adt.get("path") or adt.get("name") or adt_suffix).rsplit("::", 1)[-1]
+    pat = _re.compile(r"^&(?:'\w+ )?(?:mut )?(?:[\w:]+::)?%s(?:<.*>)?$" % _re.escape(nm))
+    for b in crate.bodies:
+        if b.is_closure or b.kind != "Fn" or b.vis == "pub" or b.key in seen or b.key in ex or self_recursive(b):
+            continue
+        if any(pat.match(str(b.locals[i]["ty"])) for i in range(1, b.arg_count + 1)):
+            own.append(b)
+    return own
 
 
 def generic_names(crate, adt_suffix):
